@@ -300,8 +300,14 @@ func contextOrigin(v ssa.Value, own *ssa.Parameter) (string, string) {
 			} else if sc := x.Call.StaticCallee(); sc != nil && sc.Signature.Recv() != nil && len(x.Call.Args) > 0 {
 				name, recv = sc.Name(), x.Call.Args[0]
 			} else if sc := x.Call.StaticCallee(); sc != nil && len(x.Call.Args) == 1 {
-				// helper taking the context (lastToken(ctx))
+				// helper taking the context (lastToken(ctx)): a repository function
+				// from a tree node to one of its tokens stays within the context
 				name, recv = sc.Name(), x.Call.Args[0]
+				if isRepoFn(sc) && sc.Signature.Results().Len() == 1 {
+					if rn := namedOf(sc.Signature.Results().At(0).Type()); rn != nil && rn.Obj().Name() == "Token" && rn.Obj().Pkg() != nil && strings.HasSuffix(rn.Obj().Pkg().Path(), "/antlr") {
+						name = "lastToken"
+					}
+				}
 			}
 			if recv == nil {
 				return false
